@@ -43,7 +43,7 @@ impl Property for C06 {
         ]
     }
     fn plan(&self, tier: Tier) -> Plan {
-        Plan { workers: tier.pick(4, 16), cases_per_worker: tier.pick(10_000, 125_000), max_shrink_iters: 3000 }
+        Plan { workers: tier.pick(4, 16), cases_per_worker: tier.pick(100_000, 600_000), max_shrink_iters: 3000 }
     }
     fn selftest(&self) -> Result<serde_json::Value, String> {
         crate::selftest::model_vs_recorded()
